@@ -7,9 +7,9 @@ open NA.Sess NA.Apply NA.Spec.C09
 
 /-- what a normal end of an approve run guarantees, per backend -/
 def needFacts : Backend → Facts
-  | .asa | .ios | .panos => ⟨true, true, false, false⟩
-  | .linux => ⟨true, false, true, true⟩
-  | .nsx => ⟨true, false, false, false⟩
+  | .asa | .ios | .panos => ⟨true, true, false, false, false, false⟩
+  | .linux => ⟨true, false, true, true, false, true⟩
+  | .nsx => ⟨true, false, false, false, false, false⟩
 
 set_option maxRecDepth 100000 in
 theorem needFacts_le (b : Backend) (sim : Bool) (h : b = .linux → sim = false) :
@@ -47,5 +47,27 @@ theorem run_mode_cases (b : Backend) (env : Env) :
   | ret => exact Or.inl rfl
   | panic => exact Or.inr (Or.inl rfl)
   | diverge => exact Or.inr (Or.inr rfl)
+
+
+/-! ## compare runs -/
+
+set_option maxRecDepth 100000 in
+theorem compareFacts_le (b : Backend) (sim : Bool) :
+    Facts.le fC (ana sim true (approveOrCompareBody b) AS.bot).ret.f0 = true := by
+  cases b <;> cases sim <;> decide
+
+/-- A compare run that ends by `return` has seen only good replies, and if a difference was
+computed, `comp: *** device changed ***` is in the log. -/
+theorem compare_ok_facts (b : Backend) (env : Env) (hc : env.compare = true) (hok : (runProg b env).mode = .ret) :
+    faulted (badChecked b) (runProg b env).tr = false ∧ ChangedLogged (runProg b env) := by
+  constructor
+  · cases hf : faulted (badChecked b) (runProg b env).tr with
+    | false => rfl
+    | true =>
+      rcases exit_of_faulted b env hf with h | h <;> rw [hok] at h <;> cases h
+  · have hpost := ana_sound env.simulated true (approveOrCompareBody b) AS.bot env ({} : St) rfl hc rfl (Sat.bot _)
+    have herr := run_ret_errv b env hok
+    have hsat : Sat (ana env.simulated true (approveOrCompareBody b) AS.bot).ret (runProg b env) := hpost.2 hok
+    exact (Holds.of_le (compareFacts_le b env.simulated) (hsat.h0 herr)).hC rfl
 
 end NA.C09
